@@ -127,7 +127,7 @@ def gen_mn(rng, tier):
     elif r_ < .3:
         case = mnet.gen_cycle_case(rng)
     else:
-        case = mnet.gen_mn_case(rng, connected=rng.random() < .8, special=rng.choice([None, None, None, "one"]))
+        case = mnet.gen_mn_case(rng, connected=rng.random() < .8, special=rng.choice([None, None, None, "one"]), name_kind=rng.choice(["str", "word", "int", "int0", "str", "word", "int", "mixed"]))
     case["target"] = rng.choice(["fg", "fg", "jt", "jt", "fg_jt", "fg_mn"]) if r_ >= .3 else rng.choice(["jt", "jt", "fg_jt"])
     return case
 
